@@ -184,14 +184,23 @@ def base(name):
     return name[2:] if name.startswith("I_") else name
 
 
-def plain_numbers(args):
-    """Python integers beyond 64 bits (numpy's ufuncs refuse them) as floats: the gate matrices are functions of real numbers."""
-    return [float(a) if (isinstance(a, int) and not isinstance(a, bool) and abs(a) >= 2 ** 62) else a for a in args]
+def plain_numbers(args, keep_ints=False):
+    """Python integers beyond 64 bits (numpy's ufuncs refuse them) as floats: the gate matrices are functions of real numbers.
+    A numpy scalar of a narrower type (numpy.float32(0.5), handed through unchanged by the library) is taken as the double of
+    the same value, so that the matrix is computed in double precision whatever type the caller's number had."""
+    out = []
+    for a in args:
+        if isinstance(a, np.floating):
+            a = float(a)
+        elif not keep_ints and isinstance(a, int) and not isinstance(a, bool) and abs(a) >= 2 ** 62:
+            a = float(a)
+        out.append(a)
+    return out
 
 
 def call(fn, args):
     """Evaluate a gate matrix function on classical arguments as the emulator hands them over."""
-    return fn(*(args if getattr(fn, "exact_ints", False) else plain_numbers(args)))
+    return fn(*plain_numbers(args, keep_ints=getattr(fn, "exact_ints", False)))
 
 
 def unitary(name, classical, variant="A"):
